@@ -16,6 +16,20 @@ let () =
             let b = Zconv.bytes_of_hex (List.nth args 2) in
             let b = b @ List.init (max 0 (len - List.length b)) (fun _ -> 0) in
             Leaf_dispatch.dispatch "c_adfNormalSum" [off; len] [b] (len / 4 + 5)
+          | "adfPutCacheEntry" ->
+            let iv = List.map int_of_string (List.filteri (fun i _ -> i < 8) args) in
+            let pad n l = l @ List.init (max 0 (n - List.length l)) (fun _ -> 0) in
+            let name = Zconv.bytes_of_hex (List.nth args 8) and comm = Zconv.bytes_of_hex (List.nth args 9) in
+            let recs = pad 488 (Zconv.bytes_of_hex (List.nth args 10)) in
+            let g k = List.nth iv k in
+            (* generated parameter order: records p cLen comm days header mins nLen name protect size ticks type *)
+            Leaf_dispatch.dispatch "c_adfPutCacheEntry" [g 0; List.length comm; g 4; g 1; g 5; List.length name; g 3; g 2; g 6; g 7]
+              [recs; pad 80 comm; pad 31 name] 0
+          | "adfGetCacheEntry" ->
+            let p = int_of_string (List.nth args 0) in
+            let pad n l = l @ List.init (max 0 (n - List.length l)) (fun _ -> 0) in
+            let recs = pad 488 (Zconv.bytes_of_hex (List.nth args 1)) in
+            Leaf_dispatch.dispatch "c_adfGetCacheEntry" [p; 0; 0; 0; 0; 0; 0; 0; 0; 0] [recs; pad 80 []; pad 31 []] 0
           | "adfBootSum" ->
             let b = Zconv.bytes_of_hex (List.nth args 0) in
             let b = b @ List.init (max 0 (1024 - List.length b)) (fun _ -> 0) in
